@@ -226,6 +226,32 @@ func c19Protocol(c *core.Ctx) {
 		})
 		c.Need(R, "stop signal in Timer.Stop", n, 1)
 	}
+	// the stop channel is reused by Refresh (the re-spawned waiter selects on the same channel): closing it anywhere but in
+	// the unreachable-object cleanup makes every later waiter return at once, so a refreshed timer never fires again
+	remade := false
+	if rf := c.P.Func("utils.(*Timer).Refresh"); rf != nil {
+		remade = len(fieldAssigns(rf, "Timer.stopCh")) > 0
+	}
+	for _, u := range c.P.Units {
+		if u.Pkg != c.P.Pkgs["utils"] {
+			continue
+		}
+		uinfo := u.Info()
+		ast.Inspect(u.Body, func(x ast.Node) bool {
+			if fl, isLit := x.(*ast.FuncLit); isLit && fl.Body != u.Body {
+				return false
+			}
+			ce, isC := x.(*ast.CallExpr)
+			if !isC {
+				return true
+			}
+			if id, ok := ce.Fun.(*ast.Ident); ok && id.Name == "close" && len(ce.Args) == 1 && fieldOf(uinfo, ce.Args[0]) == "Timer.stopCh" {
+				okSite := strings.HasPrefix(u.Key, "utils.(*Timer).Unref") || remade
+				c.Check(R, keyf("%s/close(stopCh)", u.Key), ce.Pos(), okSite, "Timer.stopCh is closed only by the unreachable-object cleanup (Refresh re-uses the channel for the next waiter)")
+			}
+			return true
+		})
+	}
 	// Refresh polarity
 	if rf := c.Fn(R, "utils.(*Timer).Refresh"); rf != nil {
 		g := rf.Graph()
